@@ -291,7 +291,7 @@ def _parseRequestLine(line: bytes) -> tuple[bytes, bytes, bytes]:
         raise ValueError("Invalid method")
 
     for c in request:
-        if c <= 32 or c > 176:
+        if c <= 32 or c >= 127:
             raise ValueError("Invalid request-target")
     if request == b"":
         raise ValueError("Empty request-target")
@@ -2459,7 +2459,11 @@ class HTTPChannel(basic.LineReceiver, policies.TimeoutMixin):
         if header == b"Content-Length":
             if not data.isdigit():
                 return self._failChooseTransferDecoder()
-            length = int(data)
+            try:
+                length = int(data)
+            except ValueError:
+                # More digits than int() accepts (sys.int_info.str_digits_check_threshold).
+                return self._failChooseTransferDecoder()
             newTransferDecoder = _IdentityTransferDecoder(
                 length, self.requests[-1].handleContentChunk, self._finishRequestBody
             )
